@@ -1566,7 +1566,7 @@ func (run *simRun) safeObserve(ni *nodeInc) {
 				if !run.stop {
 					run.reach("unobservable_two_instances")
 				}
-			} else if ni.diskErrs == 0 {
+			} else if ni.diskErrs == 0 && !ni.node.tampered {
 				run.infra = fmt.Sprintf("oracle faulted while observing %v: %v", ni, v)
 				run.stop = true
 			} else {
@@ -1759,6 +1759,10 @@ func (run *simRun) converged() (bool, string) {
 	for _, ni := range run.liveIncs() {
 		if _, member := conf.Nodes[ni.node.id]; !member {
 			continue
+		}
+		if len(ni.fsm.cmds) != len(l.G) && ni.node.tampered {
+			run.reach("tampered_node_not_converged")
+			continue // its storage was rewritten under it by a second instance (C20 profile)
 		}
 		if len(ni.fsm.cmds) != len(l.G) {
 			// A follower that came back with an empty disk is, by the library's documented
